@@ -1214,7 +1214,9 @@ impl<'tcx> Cx<'tcx> {
     /// The caller then continues ONCE with `ite(c, then, else)` leaves (the rule layer resolves an ite whose arms agree under
     /// its condition - a correct fast path - and keeps a wrong one visible).  Returns true when the merge was done.
     fn try_merge(&self, st: &mut State<'tcx>, t: T, bb_then: BasicBlock, bb_else: BasicBlock) -> bool {
-        if st.frames.len() < 2 || !self.is_eq_test(t) {
+        // only below the function under test (harness wrapper = frame 1, function under test = frame 2): its own special
+        // cases stay visible as paths, the fast paths of the helpers it calls are folded into values
+        if st.frames.len() < 3 || !self.is_eq_test(t) {
             return false;
         }
         let top = st.frames.last().unwrap().clone();
